@@ -48,6 +48,17 @@ theorem wq_thread_frame_cWake (c : Cfg) (s s' : State) (t : Nat) (st : step c s 
       | .wcAsleep b => if curB s = some b ∧ s.cowner b = t then .wcWaitLd b else .wcAsleep b
       | p => p) ∨ s'.tpc t = s.tpc t := tframe_cWake c s s' t st
 
+/-- labels of the application threads and of the memory system (other than a waker's FUTEX_WAKE, `fork`, `createWorker`)
+leave the worker's pc, `cbcount`, private list and current work unchanged -/
+theorem wq_worker_frame (c : Cfg) (s s' : State) (L : Label) (st : step c s L = some s') (hw : isWorkerLabel L = false)
+    (hk : ∀ t, L ≠ .wake t) (hf : ∀ t, L ≠ .fork t) (hc : ∀ t, L ≠ .createWorker t) :
+    s'.wpc = s.wpc ∧ s'.cnt = s.cnt ∧ s'.batch = s.batch ∧ s'.cur = s.cur := wframe c s s' L st hw hk hf hc
+
+/-- a waker's FUTEX_WAKE moves a sleeping worker to the re-check of the futex word and does nothing else to it -/
+theorem wq_worker_frame_wake (c : Cfg) (s s' : State) (t : Nat) (st : step c s (.wake t) = some s') :
+    s'.wpc = (if s.wpc = .asleep then .waitLd else s.wpc) ∧ s'.cnt = s.cnt ∧ s'.batch = s.batch ∧ s'.cur = s.cur :=
+  wframe_wake c s s' t st
+
 /-- **C16 at the level of the worker's local automaton**: between setting PAUSED and clearing it only flag accesses are
 accepted (no splice, no traversal, no work function call), `cbcount` does not change -/
 theorem wq_worker_paused_quiescent (ls ls' : WLState) (l : WLabel) (h : wstep ls l = some ls')
